@@ -793,7 +793,9 @@ pub async fn c08_io(seed: u64, thorough: bool) {
         };
         let req = format!("io-big {} {} script={}", flen, chunks_token(&lay), script.len());
         println!("TRY\t{}", req);
-        let file = ScriptedFile::new(data.clone(), script);
+        let mut file = ScriptedFile::new(data.clone(), script);
+        // once the script is used up the file reads normally (as much as is asked for)
+        file.default_read = Some(usize::MAX / 2);
         let chunks: Vec<ChunkOffset> = lay.iter().map(|&(o, s)| ChunkOffset::new(o, s)).collect();
         let res = tokio::time::timeout(std::time::Duration::from_secs(60), tokio::spawn(async move {
             let mut reader = IoReader::new(file);
